@@ -531,6 +531,11 @@ inline Result exec_c19(const Plan& plan)
             wq.arg = 4;
             Outcome o2 = call_driver(drv, wq, tagged);
             sim::stats().count("c19.by_tag_cursor_walks");
+            if(tagged.api_gap)
+            {
+                fail("by-tag-unavailable", tagged.api_gap);
+                return res;
+            }
             bool same = o1.kind == o2.kind && named.csteps.size() == tagged.csteps.size() && named.cursor_off == tagged.cursor_off && named.size == tagged.size;
             std::size_t at = 0;
             for(; same && at < named.csteps.size(); at++)
